@@ -593,6 +593,16 @@ static Handle AttachFn(H&& h, const StepD& s, FnT&& fn) {
   W->bad = true;
   return Handle{};
 }
+// a copy of a kept SharedFuture that the pipeline gives up before the SharedFuture is ready stays alive until its promise is
+// used: in the model the source of a pipeline is released when it completes (for the Drop callback / its first consumer)
+static void StashUntilSet(Shr&& h) {
+  for (auto& [j, k] : W->kept) {
+    if (k.handles[0].GetCore().Get() == h.GetCore().Get()) {
+      W->stash.emplace_back(k.p, std::move(h));
+      return;
+    }
+  }
+}
 template <typename FnT>
 static Handle AttachFn(Shr&& h, const StepD& s, FnT&& fn) {
   // a continuation on a COPY of a kept SharedFuture; a copy that is not ready yet stays alive until its promise is used
@@ -614,12 +624,7 @@ static Handle AttachFn(Shr&& h, const StepD& s, FnT&& fn) {
     }
   }
   if (!ready) {
-    for (auto& [j, k] : W->kept) {
-      if (k.handles[0].GetCore().Get() == h.GetCore().Get()) {
-        W->stash.emplace_back(k.p, std::move(h));
-        break;
-      }
-    }
+    StashUntilSet(std::move(h));
   }
   return out;
 }
@@ -1254,6 +1259,9 @@ struct Interp {
       const Shr& sh = W->kept[static_cast<int>(h)].handles.back();
       obs = " obs=" + (sh.Ready() ? Show(ToR(sh.Get())) : std::string("pending"));
     } else if (c == "dropfuture") {
+      if (auto* sh = std::get_if<Shr>(&cur); sh && !sh->Ready()) {
+        StashUntilSet(std::move(*sh));
+      }
       if (std::holds_alternative<Fut>(cur) || std::holds_alternative<FutOn>(cur) || std::holds_alternative<Shr>(cur)) {
         cnt::On on;
         cur = Handle{};
@@ -1270,6 +1278,9 @@ struct Interp {
         got = ToR(std::as_const(*sh).Get());
         cur = Handle{};
       } else if (std::holds_alternative<Fut>(cur) || std::holds_alternative<FutOn>(cur) || std::holds_alternative<Shr>(cur)) {
+        if (auto* sh2 = std::get_if<Shr>(&cur)) {
+          StashUntilSet(std::move(*sh2));
+        }
         cur = Handle{};  // Get() would block for ever in a single thread: the future is given up
       }
     } else if (c == "flush") {
